@@ -4,9 +4,13 @@ import Driver.SchemaJson
 import Driver.Suites.Trace
 import SaModel.Trace.FromType
 import SaModel.Trace.Mapping
+import SaModel.Lemmas.C08Covers
+import SaModel.Lemmas.C08Class
 /- suite `tracety` (C08): `from_type::<DynRoot>` on the real crate vs `SaModel.Trace.fromType` (operational model) and
    vs `Spec.fromTypeSpec` (the documented mapping); `from_samples` on covering samples must give the same schema;
-   overwrites at real and perturbed paths; DynRoot fidelity against the compiled zoo of real derives. -/
+   overwrites at real and perturbed paths; DynRoot fidelity against the compiled zoo of real derives.
+   `samples_rand`: a randomised sample list that must be covering in the sense of `SaModel.Lemmas.C08.Covers` (decided here
+   with `hasTy` / `covers`): `from_samples` on it vs the operational model and — C08 — vs `from_type`. -/
 namespace Driver.Suites.Tracety
 open Lean Driver SaModel SaModel.Trace Driver.Suites.Trace
 
@@ -78,6 +82,73 @@ partial def tyCtors : Ty → List String
   | .struct _ _ => ["struct"] | .enum _ _ => ["enum"] | .unitStruct _ => ["unit_struct"]
   | _ => ["leaf"]
 
+def tysToList : Tys → List Ty
+  | .nil => []
+  | .cons t r => t :: tysToList r
+
+def tyFieldsToList' : TyFields → List (String × Ty)
+  | .nil => []
+  | .cons n t r => (n, t) :: tyFieldsToList' r
+
+mutual
+/-- the paths of the variant nodes of every enum of the type (`<path>.<Variant>`), at any depth -/
+partial def variantNodes (path : String) : Ty → List String
+  | .option t | .newtypeStruct _ t => variantNodes path t
+  | .vec t => variantNodes (Spec.childPath path "element") t
+  | .tuple ts | .tupleStruct _ ts => variantNodesTys path ts
+  | .map k v => variantNodes (Spec.childPath path "key") k ++ variantNodes (Spec.childPath path "value") v
+  | .struct _ fs => variantNodesFields path fs
+  | .enum _ vs => variantNodesVariants path vs
+  | _ => []
+partial def variantNodesTys (path : String) (ts : Tys) : List String :=
+  ((tysToList ts).zipIdx).flatMap fun (t, i) => variantNodes (Spec.childPath path (toString i)) t
+partial def variantNodesFields (path : String) (fs : TyFields) : List String :=
+  (tyFieldsToList' fs).flatMap fun (n, t) => variantNodes (Spec.childPath path n) t
+partial def variantNodesVariants (path : String) : TyVariants → List String
+  | .nil => []
+  | .unit n r => Spec.childPath path n :: variantNodesVariants path r
+  | .newtype n t r => Spec.childPath path n :: (variantNodes (Spec.childPath path n) t ++ variantNodesVariants path r)
+  | .tuple n ts r => Spec.childPath path n :: (variantNodesTys (Spec.childPath path n) ts ++ variantNodesVariants path r)
+  | .struct n fs r => Spec.childPath path n :: (variantNodesFields (Spec.childPath path n) fs ++ variantNodesVariants path r)
+end
+
+/-- what a sample list shows beyond the canonical covering list (coverage tags) -/
+partial def svalMarks : SVal → List String
+  | .none => ["rand:none"]
+  | .some v | .newtypeStruct _ v | .newtypeVariant _ _ _ v => svalMarks v
+  | .seq items => (match items.length with | 0 => ["rand:seq0"] | 1 => [] | _ => ["rand:seq2+"]) ++ items.toList.flatMap svalMarks
+  | .tuple items | .tupleStruct _ items | .tupleVariant _ _ _ items => items.toList.flatMap svalMarks
+  | .map es => (match es.toList.length with | 0 => ["rand:map0"] | 1 => [] | _ => ["rand:map2+"])
+      ++ es.toList.flatMap fun (k, v) => svalMarks k ++ svalMarks v
+  | .record _ fs | .structVariant _ _ _ fs => fs.toList.flatMap fun (_, _, v) => svalMarks v
+  | _ => []
+
+/-- the message of an implementation error -/
+def implMsg (j : Json) : String :=
+  match j.getObjVal? "err" with
+  | .ok e => (e.getObjValAs? String "msg").toOption.getD ""
+  | .error _ => ""
+
+/-- the error CLASS (C08_from_type_class, table `SameClass` of Lemmas/C08Class.lean): when the implementation fails, the
+documented error its message belongs to (`documentedError`) must be the error of `Spec.fromTypeSpec`; for a type that
+cannot be walked the budget error may come first (`C08_not_walkable_budget_first`).  Second component: the operational
+model must fail with a message of the same class as the implementation. -/
+def classVerdict (o : Trace.Options) (ty : Ty) (implJ : Json) (model spec : R (List Field)) : Option String × Option String :=
+  if implCls implJ != "err" then (none, none) else
+  let dash (x : String) := x.replace " " "-"
+  let ic := SaModel.Lemmas.C08.documentedError (implMsg implJ)
+  let walk := Spec.walkable o "$" ty
+  let c := match spec with
+    | .error (.err s) =>
+      if ic == s || (!walk && ic == "budget") then none else some s!"C08/error-class/expected={dash s}/impl={dash ic}"
+    | _ => none
+  let a := match model with
+    | .error (.err m) =>
+      let mc := SaModel.Lemmas.C08.documentedError m
+      if mc == ic then none else some s!"tracety/error-class-model-vs-impl/{dash mc}/{dash ic}"
+    | _ => none
+  (c, a)
+
 def handle (j : Json) : Except String Verdict := do
   let ty ← tyOfJson (← getObj j "ty")
   let optsJ ← getObj j "opts"
@@ -96,6 +167,14 @@ def handle (j : Json) : Except String Verdict := do
     agree := false; asig := s!"tracety/model-vs-impl/{diffSig model cls implFields}"
   if !sameOutcome spec cls implFields then
     c08 := false; csig := s!"C08/from_type-vs-mapping/{diffSig spec cls implFields}"
+  let mut tagsErr : List String := []
+  if cls == "err" then
+    let (cc, ca) := classVerdict o ty (← getObj j "impl") model spec
+    tagsErr := [s!"errclass:{(SaModel.Lemmas.C08.documentedError (implMsg (← getObj j "impl"))).replace " " "-"}"]
+    if let some sg := ca then
+      if agree then agree := false; asig := sg
+    if let some sg := cc then
+      if c08 then c08 := false; csig := sg
   -- (b) DynRoot fidelity
   if let some real := getOpt j "real" then
     let (rcls, rf) ← implOutcome real
@@ -113,27 +192,85 @@ def handle (j : Json) : Except String Verdict := do
       if scls != "ok" || sf != implFields then
         c08 := false
         csig := s!"C08/from_type-vs-from_samples/{match implFields, sf with | some a, some b => diffFields a b | _, _ => s!"samples={scls}"}"
+  let mut tags := [kind, s!"cls:{cls}"] ++ tagsErr ++ (match ty with | .struct _ fs => (tyFieldsToList fs).flatMap (fun (e : String × Ty) => tyCtors e.2) | t => tyCtors t).eraseDups
+  -- (c') from_samples on a randomised sample list: it must be covering (`Covers o ty`, decided with the definitions of
+  --      Lemmas/C08Covers.lean), the model must reproduce the implementation on it, and (C08) when from_type succeeds the
+  --      implementation's from_samples must succeed with exactly from_type's fields
+  let mut samplesRand : List SVal := []
+  if let some sr := getOpt j "samples_rand" then
+    samplesRand ← (← sr.getArr?).toList.mapM svalOfJson
+    let isCov := samplesRand.all (SaModel.Lemmas.C08.hasTy o · ty) && SaModel.Lemmas.C08.covers ty samplesRand
+    tags := tags ++ [if isCov then "cover:yes" else "cover:no"] ++ (samplesRand.flatMap svalMarks).eraseDups
+      ++ (if samplesRand.length > samples.length then ["rand:more"] else [])
+      ++ (if samplesRand.eraseDups.length < samplesRand.length then ["rand:repeated"] else [])
+    if !isCov then
+      agree := false; asig := "tracety/rand-not-covering"
+    if let some is := getOpt j "impl_samples_rand" then
+      let (scls, sf) ← implOutcome is
+      panics := panics || scls == "panic"
+      let ms := fromSamples .fixed o samplesRand
+      if !sameOutcome ms scls sf then
+        agree := false; asig := s!"tracety/samples-rand-model-vs-impl/{diffSig ms scls sf}"
+      if cls == "ok" && c08 && isCov then
+        tags := tags ++ ["rand:vs-from_type"]
+        if scls != "ok" || sf != implFields then
+          c08 := false
+          csig := s!"C08/from_type-vs-from_samples-rand/{match implFields, sf with | some a, some b => diffFields a b | _, _ => s!"samples={scls}"}"
+    else
+      agree := false; asig := "tracety/rand-not-run"
   -- (d) overwrites
   let ows := (getArr j "overwrites").toOption.getD #[]
-  let mut tags := [kind, s!"cls:{cls}"] ++ (match ty with | .struct _ fs => (tyFieldsToList fs).flatMap (fun (e : String × Ty) => tyCtors e.2) | t => tyCtors t).eraseDups
   if ows.size > 0 then
     let o2 ← parseOpts (optsJ.setObjVal! "overwrites" (Json.arr ows))
+    let mut owCls := ""
+    let mut owFields : Option (List Field) := none
+    let vnodes := variantNodes "$" ty
+    let vbelow := (Spec.tyPaths "$" ty).filter fun p => vnodes.any fun v => (v ++ ".").isPrefixOf p
+    let keys := ows.toList.filterMap fun ow => match ow with | .arr #[.str p, _] => some ("$." ++ p) | _ => none
+    tags := tags ++ [s!"ow:n{ows.size}"]
+      ++ (if keys.any vnodes.contains then ["ow:at-variant"] else [])
+      ++ (if keys.any vbelow.contains then ["ow:below-variant"] else [])
+      ++ (if ows.any fun ow => match ow with | .arr #[_, f] => (match f.getObjVal? "dt" with | .ok (.str _) => false | _ => true) | _ => false then ["ow:nested-dt"] else [])
+      ++ (if ows.any fun ow => match ow with | .arr #[_, f] => (f.getObjVal? "meta").isOk | _ => false then ["ow:meta"] else [])
+      ++ (if keys.eraseDups.length < keys.length then ["ow:same-path"] else [])
     if let some iw := getOpt j "impl_ow" then
       let (wcls, wf) ← implOutcome iw
       panics := panics || wcls == "panic"
       let mw := fromType .fixed o2 ty
       let sw := Spec.fromTypeSpec o2 ty
       tags := tags ++ [s!"ow:{wcls}"]
+      owCls := wcls; owFields := wf
       if !sameOutcome mw wcls wf then
         agree := false; asig := s!"tracety/overwrite-model-vs-impl/{diffSig mw wcls wf}"
       if c08 && !sameOutcome sw wcls wf then
         c08 := false; csig := s!"C08/overwrite/{diffSig sw wcls wf}"
+      if wcls == "err" then
+        let (cc, ca) := classVerdict o2 ty iw mw sw
+        tags := tags ++ [s!"ow-errclass:{(SaModel.Lemmas.C08.documentedError (implMsg iw)).replace " " "-"}"]
+        if let some sg := ca then
+          if agree then agree := false; asig := sg
+        if let some sg := cc then
+          if c08 then c08 := false; csig := sg
     if let some iw := getOpt j "impl_samples_ow" then
       let (wcls, wf) ← implOutcome iw
       panics := panics || wcls == "panic"
       let mw := fromSamples .fixed o2 samples
       if !sameOutcome mw wcls wf then
         agree := false; asig := s!"tracety/overwrite-samples-model-vs-impl/{diffSig mw wcls wf}"
+      -- C08 with the overwrites in the options: from_samples(covering) repeats a successful from_type
+      if owCls == "ok" && c08 && (wcls != "ok" || wf != owFields) then
+        c08 := false
+        csig := s!"C08/from_type-vs-from_samples-ow/{match owFields, wf with | some a, some b => diffFields a b | _, _ => s!"samples={wcls}"}"
+    if let some iw := getOpt j "impl_samples_rand_ow" then
+      let (wcls, wf) ← implOutcome iw
+      panics := panics || wcls == "panic"
+      let mw := fromSamples .fixed o2 samplesRand
+      if !sameOutcome mw wcls wf then
+        agree := false; asig := s!"tracety/overwrite-samples-rand-model-vs-impl/{diffSig mw wcls wf}"
+      let isCov2 := samplesRand.all (SaModel.Lemmas.C08.hasTy o2 · ty) && SaModel.Lemmas.C08.covers ty samplesRand
+      if owCls == "ok" && c08 && isCov2 && (wcls != "ok" || wf != owFields) then
+        c08 := false
+        csig := s!"C08/from_type-vs-from_samples-rand-ow/{match owFields, wf with | some a, some b => diffFields a b | _, _ => s!"samples={wcls}"}"
   -- (e) API coverage: the same tracing with the options reached another way / through another `SchemaLike` implementor /
   --     with untouched defaults must repeat the result it stands beside (C08: the mapping depends on the option VALUES only,
   --     and `Default` holds the documented values)
